@@ -17,6 +17,20 @@ def builds_needed(tier):
     return ["rel"]
 
 
+# Own corpus re-run on other builds of the crate (mc/core.py: extra builds). Every observation is compared with the same model.
+def _vec(fname, arg):
+    if fname == "shard_hkdf":
+        return str(arg).startswith(("sha224", "sha256", "blake2"))
+    if fname == "shard_pbkdf2":
+        return arg == "sha256"
+    return fname.startswith("shard_scrypt") and fname != "shard_scrypt_params"
+
+
+def extra_builds(tier):
+    return [("relchk", None), ("sse41", _vec), ("avx", _vec), ("avx2", _vec)]
+
+
+
 def bounds(tier):
     return {"scrypt_log2N": "1..=10" if tier == "thorough" else "1..=6 (+ spot 10)", "scrypt_r": "1..=8 (thorough also 9..=16 at small N)", "scrypt_p": "1..=4 (thorough also 5..=8 at small N)",
             "pbkdf2_c_max": 4096 if tier == "thorough" else 1000, "hkdf_digests": 13 if tier == "thorough" else 5, "hkdf_L_max": "255*HashLen (and +1, 256*HashLen refused)"}
@@ -68,6 +82,14 @@ def shard_hkdf(kind, tier):
         cases.append((["hkdf_expand %s %s h: %d" % (kind, H(prk), L)], ["PANIC"], None))
     for bad in (0, Hn - 1, Hn + 1, 2 * Hn):
         cases.append((["hkdf_extract %s h: h:78 %d" % (kind, bad)], ["PANIC"], None))
+    # the digest object handed in may have been used before (fed, or fed and finalised): HKDF starts from a clean hash state
+    salt, ikm, info = pat(6, 0, 13), pat(5, 0, 22), pat(7, 0, 10)
+    prk = macs.hkdf_extract(kind, salt, ikm)
+    okm = macs.hkdf_expand(kind, prk, info, 2 * Hn + 1)
+    for dl in (1, B - 1, B, B + 1, 2 * B + 3):
+        for fin in ("", " fin"):
+            cases.append((["hkdf_extract %s %s %s - %s%s" % (kind, P(6, 0, 13), P(5, 0, 22), P(4, 0, dl), fin)], [obs_of(prk)], None))
+            cases.append((["hkdf_expand %s %s %s %d %s%s" % (kind, H(prk), P(7, 0, 10), 2 * Hn + 1, P(4, 0, dl), fin)], [obs_of(okm)], None))
     # a PRK longer than HashLen is legal ("at least HashLen octets")
     long_prk = pat(6, 3, B + 7)
     cases.append((["hkdf_expand %s %s h:01 %d" % (kind, H(long_prk), 2 * Hn + 1)], [obs_of(macs.hkdf_expand(kind, long_prk, b"\x01", 2 * Hn + 1))], None))
@@ -91,6 +113,12 @@ def shard_pbkdf2(kind, tier):
                     exp = macs.pbkdf2(kind, pw, salt, c, dk)
                     cases.append((["pbkdf2 %s %s %s %d %d" % (kind, H(pw), H(salt), c, dk)], [obs_of(exp)], None))
     cases.append((["pbkdf2 %s h:70 h:73 0 %d" % (kind, Hn)], ["PANIC"], None))
+    # one Hmac object driving two derivations in a row (scrypt does exactly this)
+    for c in (1, 2, 3):
+        for dk in (1, Hn, Hn + 1, 2 * Hn + 5):
+            pw, s1, s2 = pat(5, 0, 8), pat(6, 0, 8), pat(6, 9, 5)
+            exp = macs.pbkdf2(kind, pw, s1, c, dk) + macs.pbkdf2(kind, pw, s2, c, dk)
+            cases.append((["pbkdf2_twice %s %s %s %s %d %d" % (kind, H(pw), H(s1), H(s2), c, dk)], [obs_of(exp)], None))
     ck.run(cases)
     ck.stats.states = len(cases) + 1
     return ck.stats
